@@ -41,6 +41,10 @@ class SPuppet:
         self.task_status = None
         self.failat_cms: dict = {}
         self.idle_hits = 0
+        self.inbox: list = []
+        self.cmd_outcome = None
+        self.cmd_done = 0
+        self.busy = False
         self.pending_op = None
         self.in_start_join = False
 
@@ -50,20 +54,27 @@ class SPuppet:
         loop = self.world.loop
         try:
             while True:
-                self.cmdfut = loop.create_future()
-                self.at_decision = True
-                try:
-                    cmd = await self.cmdfut
-                except CancelledError as e:
-                    # cancellation delivered while the program sits between two operations
+                self.busy = False
+                if self.inbox:
+                    cmd = self.inbox.pop(0)
+                else:
+                    self.cmdfut = loop.create_future()
+                    self.at_decision = True
+                    try:
+                        cmd = await self.cmdfut
+                    except CancelledError as e:
+                        # cancellation delivered while the program sits between two operations
+                        self.at_decision = False
+                        if self.world.shutdown:
+                            raise
+                        self.held = e
+                        self.outcome = ("exc", e)
+                        self.idle_hits += 1
+                        continue
                     self.at_decision = False
-                    if self.world.shutdown:
-                        raise
-                    self.held = e
-                    self.outcome = ("exc", e)
-                    self.idle_hits += 1
-                    continue
-                self.at_decision = False
+                    if cmd == "inbox":
+                        continue
+                self.busy = True
                 if isinstance(cmd, tuple) and cmd[0] == "finish":
                     if self.held is not None:
                         raise self.held
@@ -76,6 +87,8 @@ class SPuppet:
                         raise
                     self.held = e
                     self.outcome = ("exc", e)
+                self.cmd_outcome = self.outcome
+                self.cmd_done += 1
         finally:
             self.finished = True
             self.at_decision = False
@@ -426,11 +439,11 @@ class SWorld:
             w._expect_child = child
             try:
                 tg.create_task(coro)
+                w.adopt_expected()                # real-loop mode: no create_task hook
             finally:
                 if w._expect_child is child:      # refused: no task was created
                     w._expect_child = None
                     coro.close()
-            w.adopt_expected()
             w.public_handles.append(child.tid)   # create_task() hands the TaskHandle to the program
             return child.tid
 
